@@ -837,7 +837,9 @@ def run(c):
         "`skip_priority` is whatever the user hook leaves behind (modelled as an arbitrary predicate on the priority)",
         "constraint/objective construction between the hooks is outside this property (C02-C04)",
     ]
-    c.prove()
+    from .translate_c10 import gen_priority_loop
+
+    c.prove(extra=gen_priority_loop(c))  # + the two priority loops translated from the source on every run
     rng = c.rng
     check_instances(c, [dict(x) for x in CORPUS], "corpus")
     if c.big:
@@ -868,7 +870,9 @@ def run(c):
 
 def replay(c, rp):
     logging.getLogger("rtctools").setLevel(logging.CRITICAL)
-    c.prove()
+    from .translate_c10 import gen_priority_loop
+
+    c.prove(extra=gen_priority_loop(c))  # + the two priority loops translated from the source on every run
     cases = []
     for f in rp.get("failures", []) + rp.get("correspondence_disagreements", []):
         case = f.get("case") or {}
